@@ -21,7 +21,7 @@ pub fn def() -> PropDef {
             "Cmp_SignDecided", "Cmp_Zero", "Cmp_ScaleOverflow", "Cmp_SameScale", "Cmp_BitPrefilter",
             "Cmp_U64", "Cmp_U128", "Cmp_DigitCount", "Cmp_DigitWise",
         ],
-        rule: "pairs from: enumerated carry-boundary limbs (all k=1..19 x 1..6 limbs, floor(2^64/10^k), floor(2^32/10^k), floor((2^64-1)/10^k) +-{0,1,2}, twin and twin+-1, both signs), seeded twins with scale gap 1..19 and 20..80 (+-1 ulp), operands straddling u64/u128 limits, zeros of any scale, scale gaps beyond 2^63, random pairs; chains of 3..7 related values for transitivity and sort. Each pair is judged in both orders on 17 comparison forms (==, !=, <, <=, >, >=, cmp, partial_cmp on values and references, max/min) against the model order. distinct = distinct operand tuples; non-trivial = both non-zero, same sign, different scales (the sign/zero/same-scale shortcuts cannot decide)",
+        rule: "exhaustive small scope: every pair of values n*10^-s with |n| <= 60, s in -2..3; then pairs from: enumerated carry-boundary limbs (all k=1..19 x 1..6 limbs, floor(2^64/10^k), floor(2^32/10^k), floor((2^64-1)/10^k) +-{0,1,2}, twin and twin+-1, both signs), seeded twins with scale gap 1..19 and 20..80 (+-1 ulp), operands straddling u64/u128 limits, zeros of any scale, scale gaps beyond 2^63, random pairs; chains of 3..7 related values for transitivity and sort. Each pair is judged in both orders on 17 comparison forms (==, !=, <, <=, >, >=, cmp, partial_cmp on values and references, max/min) against the model order. distinct = distinct operand tuples; non-trivial = both non-zero, same sign, different scales (the sign/zero/same-scale shortcuts cannot decide)",
     }
 }
 
@@ -30,12 +30,14 @@ fn plan(tier: Tier) -> Vec<Unit> {
     match tier {
         Tier::Quick => {
             v.extend(crate::util::split_budget("boundary", 19 * 6, 6)); // k x limb-count, each unit enumerates offsets and variants
+            v.extend(crate::util::split_budget("small", 726, 11));
             v.extend(crate::util::split_budget("random", 800_000, 5_000));
             v.extend(crate::util::split_budget("triples", 100_000, 2_000));
             v.extend(crate::util::split_budget("wide", 20_000, 2_000));
         }
         Tier::Thorough => {
             v.extend(crate::util::split_budget("boundary", 19 * 6, 2));
+            v.extend(crate::util::split_budget("small", 726, 11));
             v.extend(crate::util::split_budget("random", 12_000_000, 20_000));
             v.extend(crate::util::split_budget("triples", 1_000_000, 10_000));
             v.extend(crate::util::split_budget("wide", 200_000, 10_000));
@@ -297,6 +299,24 @@ fn random_pair(r: &mut Rng, lmax: usize) -> (Dec, Dec) {
 fn run_unit(unit: &Unit, r: &mut Rng, ctx: &mut Ctx) {
     match unit.kind {
         "boundary" => boundary_unit(unit, r, ctx),
+        "small" => {
+            // exhaustive: every unordered pair of values n * 10^-s with |n| <= 60, s in -2..=3
+            let val = |i: u64| Dec::new(BigInt::from((i / 6) as i64 - 60), (i % 6) as i64 - 2);
+            for i in unit.start..unit.start + unit.count {
+                let a = val(i);
+                for j in i..726 {
+                    let b = val(j);
+                    let case = Case::new("pair").push(a.tok()).push(b.tok());
+                    ctx.begin_case(&case);
+                    check_both(&a, &b, &case, ctx);
+                    ctx.end_case(case.hash(), false);
+                    ctx.enumerated_nontrivial += 1;
+                }
+            }
+            if unit.start == 0 {
+                ctx.exhaustive_notes.push("C02 small scope: every pair of values n*10^-s with |n| <= 60, s in -2..3 (263 901 pairs, both orders, 25 comparison forms)".into());
+            }
+        }
         "random" => {
             for i in 0..unit.count {
                 let lmax = if (unit.start + i) % 50 == 0 { 1500 } else if i % 5 == 0 { 200 } else { 45 };
